@@ -11,6 +11,21 @@ DRIVER = os.path.join(BUILD, "driver")
 REPO = os.environ.get("VERIF_REPO", "/repo")
 EVID = os.environ.get("VERIF_EVIDENCE_DIR", os.path.join(VERIF, "evidence"))
 
+# when set, the adapters pass plain ints where the library's signatures name an IntEnum (a caller
+# reading flags from a configuration file does exactly that; comparing members by identity breaks it)
+PLAIN_INTS = False
+
+
+def enum_or_int(cls, v):
+    """the library's own enum member where one exists (what a caller would usually pass) -- or, for every
+    fifth case of a stream, the equal plain int -- else the bare int"""
+    try:
+        m = cls(v)
+    except ValueError:
+        return v
+    return int(v) if PLAIN_INTS else m
+
+
 # ---------------------------------------------------------------- exceptions
 E_VALUE, E_TOOSHORT, E_UNICODE, E_CRC, E_VERSION, E_TLV, E_VERIFPARAMS, E_OVERFLOW, E_FNF = 1, 2, 3, 4, 5, 6, 7, 8, 9
 E_TYPE, E_INDEX, E_STRUCT, E_ATTR, E_KEY, E_ASSERT, E_FUEL, E_OTHER = 20, 21, 22, 23, 24, 25, 98, 99
@@ -405,7 +420,11 @@ class Check:
                     cases = list(cases)
                     t = time.time()
                     mres = run_model(cases, self.jobs)
-                    ires = [run_impl(prop.impl, op, a) for op, a in cases]
+                    ires = []
+                    for k_, (op, a) in enumerate(cases):
+                        globals()["PLAIN_INTS"] = (k_ % 5 == 4)
+                        ires.append(run_impl(prop.impl, op, a))
+                    globals()["PLAIN_INTS"] = False
                     nm = 0
                     for c, m, i in zip(cases, mres, ires):
                         n_eval += 1
